@@ -186,7 +186,7 @@ class FX(object):
     pass
 
 
-FIXTURE_NAMES = ['lit', 'I_shl', 'I_add', 'I_push', 'I_pop', 'I_moves', 'I_sete', 'I_div', 'I_sse', 'I_rep67', 'I_popad', 'I_movecx3', 'I_rep', 'K', 'K2', 'w', 'T', 'U', 'Q', 'Q2', 'C', 'pc', 'regs', 'sys.path']
+FIXTURE_NAMES = ['lit', 'I_shl', 'I_add', 'I_push', 'I_pop', 'I_moves', 'I_sete', 'I_div', 'I_sse', 'I_rep67', 'I_popad', 'I_movecx3', 'I_rep', 'K', 'K2', 'w', 'T', 'U', 'Q', 'Q2', 'C', 'C2', 'L', 'pc', 'regs', 'sys.path']
 
 
 def build_fixtures():
@@ -221,6 +221,8 @@ def build_fixtures():
     lo, hi = E.ExprSlice(S.edx, 0, 8), E.ExprSlice(S.edx, 8, 16)
     f.C = E.ExprOp('^', E.ExprCompose([(lo, 0, 8), (hi, 8, 16), (E.ExprSlice(S.edx, 16, 32), 16, 32)]),
                    E.ExprCompose([(hi, 0, 8), (E.ExprSlice(f.w, 8, 32), 8, 32)]))
+    f.C2 = E.ExprCompose([(E.ExprInt32(0x1FF), 0, 8), (E.ExprSlice(S.eax, 8, 32), 8, 32)])     # constant with bits above its slot
+    f.L = EH.get_instr_expr(dis(bytes.fromhex('83c001')), E.ExprInt32(3), [])                    # a lifted list kept and reused by the caller
     f.pc = E.ExprInt32(2)
     f.regs = [v for k, v in sorted(vars(S).items()) if isinstance(v, E.Expr)]
     f.m = [None, EH.x86_machine(), EH.x86_machine()]
@@ -252,7 +254,7 @@ def build_fixtures():
         if isinstance(e, E.ExprCompose):
             for a, _, _ in e.args:
                 walk(a)
-    for e in [f.w, f.T, f.U, f.Q, f.Q2, f.C, f.pc, f.K, f.K2] + f.regs:
+    for e in [f.w, f.T, f.U, f.Q, f.Q2, f.C, f.C2, f.pc, f.K, f.K2] + list(f.L) + f.regs:
         walk(e)
     for m in f.m[1:]:
         for k, v in sorted(m.pool.pool_id.items(), key=lambda kv: kv[0].name):
@@ -377,6 +379,9 @@ def _calls():
         'dis_m': ('pure', 0, lambda f: mn.dis(f.lit['b_m'])),
         'dis_m8': ('pure', 0, lambda f: mn.dis(f.lit['b_m8'])),
         'simp_C': ('pure', 0, lambda f: H.expr_simp(f.C)),
+        'simp_C2': ('pure', 0, lambda f: H.expr_simp(f.C2)),
+        'evi_L_m1': ('write', 1, lambda f: f.m[1].eval_instr(f.L)),
+        'evi_L_m2': ('write', 2, lambda f: f.m[2].eval_instr(f.L)),
         'eval_C_m2': ('read', 2, lambda f: ev(f, 2, f.C)),
         'asm_mov': ('pure', 0, lambda f: asm(f, 't_mov')),
         'asm_shl': ('pure', 0, lambda f: asm(f, 't_shl')),
